@@ -798,6 +798,18 @@ func ParseContractFile(path string, requirePrefix bool) (*ContractFile, error) {
 					cf.GhostFields = append(cf.GhostFields, GhostField{Struct: st, Name: f[1][k+1:], Type: f[2]})
 					continue
 				}
+				if len(f) == 2 && f[0] == "purefunc" {
+					// ghost purefunc (*T).name : the function values stored in field `name` of struct T are pure and
+					// deterministic (an assumption, listed in evidence); calls through the field are applications of
+					// an uninterpreted function of the function value and the arguments
+					k := strings.LastIndex(f[1], ".")
+					if k < 0 {
+						return nil, fail(rc, fmt.Errorf("ghost purefunc (*T).name"))
+					}
+					st := strings.Trim(f[1][:k], "(*)")
+					cf.GhostFields = append(cf.GhostFields, GhostField{Struct: st, Name: "purefunc:" + f[1][k+1:], Type: "PUREFUNC"})
+					continue
+				}
 				if len(f) != 2 {
 					return nil, fail(rc, fmt.Errorf("ghost NAME TYPE"))
 				}
